@@ -31,9 +31,25 @@ def collide_case(rng):
     return ["history", None, hist.stream_history([d])]
 
 
+def reader_case(rng):
+    """documents that read a variable nothing in them binds ($repeat, $repeat:x, $repeat.x, an unset $env): an error by
+    themselves - unless another evaluation in the same process leaked its bindings"""
+    ref = rng.pick(["$repeat", "$repeat:x", "$repeat:y", "$repeat.x", "$repeat.y", "$env:VERIF_UNSET_%d" % rng.below(3)])
+    form = rng.below(3)
+    if form == 0:
+        d = {"v": ref, "k": 1}
+    elif form == 1:
+        d = {"v": '$"a{%s}b"' % ref, "k": 1}
+    else:
+        d = {"k": 1, "list": [{"w": '$"{%s}"' % ref}]}
+    return ["history", None, hist.stream_history([d])]
+
+
 def gen_case(rng):
     if rng.chance(1, 10):
         return collide_case(rng)
+    if rng.chance(1, 12):
+        return reader_case(rng)
     g = GENS[rng.below(len(GENS))]
     c = g(rng)
     if g is c19.gen_case:
@@ -101,7 +117,8 @@ def run(ctx):
         batch.extend([c] * reps)
     im1 = ctx.impl(batch)
     im2 = ctx.impl(cases)
-    im3 = ctx.impl(cases)
+    # a third process runs the cases in REVERSE order: a result that depends on what the process evaluated before shows
+    im3 = list(reversed(ctx.impl(list(reversed(cases)))))
     if ctx.tier == "thorough":
         race_dir = os.path.join(ctx.work, "race")
         os.makedirs(race_dir, exist_ok=True)
